@@ -9,7 +9,7 @@ def body(c):
     from engine import tlc
     path = os.path.join(common.VERIF, "out", "cfg", "MD_C06.cfg")
     tlc.write_cfg(path, constants=dict(Procs={1}, Slots={1, 2}, Vers={1, 2}, Keys={"a", "b"}, Stores={1, 2}, MaxOps=6 if c.quick else 8,
-                                       FixD6=True, FixD13=True, FixD5c=True, FixD20=True, Aliased=set(), FixD21=True, Gen=False),
+                                       FixD6=True, FixD13=True, FixD5c=True, FixD20=True, Aliased=set(), Homonyms=set(), FixD21=True, Gen=False),
                   spec="Spec", invariants=["ValueCorrect"], properties=["HitWhenDue"], view="View")
     c.model_check("MemoryDesign[histories]", "MemoryDesign", path, workers=16, timeout=1500)
     memargs.run(c, "C06")
